@@ -12,10 +12,15 @@
   the fault-free run has filled ones; `Edn.Spec.eraseCache` is the value with all cache cells
   emptied.  Everything else (kinds, payloads, ranges, element order, metadata) is equal.
 
-  Hypothesis `opts.registry = none`: a tag handler is an arbitrary function of the value it is
-  given, cache cells included, so with handlers "equal up to cache cells" is not preserved by the
-  model (nor are the invariants of Edn.Proofs.ReaderInv, on which the cache-insensitivity of
-  equality rests).
+  Hypothesis `RegistryOK cfg opts` (trivially true without a registry): every handler, given
+  arguments that differ in cache cells only, gives up on both or returns results that differ in
+  cache cells only and are again operands of the value algebra (`HandlerOK`: well-formed, valid
+  caches, within the nesting limit).  A tag handler is an arbitrary function of the value it is
+  given, cache cells included, so without such a hypothesis "equal up to cache cells" is not
+  preserved by the model (`fault_theorem_needs_registry_hypothesis` at the end of this file: a
+  handler that peeks at a cache cell).  The identity handler, a handler that always gives up and a
+  handler that builds an external value from its argument's range — the handlers of the harness —
+  satisfy it (`HandlerOK_id`, `HandlerOK_fail`, `HandlerOK_ext`).
 
   HISTORY (why the model and the code have their present form).  As first modelled — and as the
   code then was — the theorem was false: equality treated a refused lazy decoding like an
@@ -42,7 +47,7 @@ open Edn.Model Edn.Spec Edn.Proofs Edn.Generated Edn.Proofs.AllocBasic
     limit: a value returned under faults is the fault-free value up to cache cells, with the same
     parser state (rest of the input, call log); "closer" is "closer"; the end of input between
     top-level forms is reported as by the fault-free reader. -/
-theorem readValueA_fault (x : ACtx) (hreg : x.ctx.opts.registry = none) (f d : Nat) (dm : Bool) (st : St) (a : ASt)
+theorem readValueA_fault (x : ACtx) (hR : RegistryOK x.ctx.cfg x.ctx.opts) (f d : Nat) (dm : Bool) (st : St) (a : ASt)
     (hd : d ≤ Tables.maxNestingDepth) :
     (∀ v st', (readValueA x f d dm st a).1 = .ok v st' →
       ∃ v0, readValue x.ctx f d dm st = .ok v0 st' ∧ eraseCache v = eraseCache v0) ∧
@@ -51,7 +56,7 @@ theorem readValueA_fault (x : ACtx) (hreg : x.ctx.opts.registry = none) (f d : N
       readValue x.ctx f d dm st = .err e st') ∧
     (∀ e st', (readValueA x f d dm st a).1 = .err e st' → e.fuelOut = true →
       (readValue x.ctx f d dm st).isFuelOut = true) := by
-  have h := (reader_fault hreg f).1 d dm st a hd
+  have h := (reader_fault hR f).1 d dm st a hd
   refine ⟨fun v st' e => ?_, fun st' e => ?_, fun e' st' e ht => ?_, fun e' st' e hf => ?_⟩
   · rw [e] at h
     obtain ⟨v0, h1, g⟩ := h
@@ -73,7 +78,7 @@ def FaultOutcome (o o0 : Outcome) : Prop :=
 /-- **Fault theorem for `edn_read_with_options`.**  For every oracle: the outcome is the fault-free
     value up to cache cells (then the call logs are equal too), or the end-of-input value where the
     fault-free read yields it, or an error — never "out of fuel", never another value. -/
-theorem readA_fault (cfg : Cfg) (opts : Opts) (hreg : opts.registry = none) (orc : Nat → Bool) (input : Bytes)
+theorem readA_fault (cfg : Cfg) (opts : Opts) (hR : RegistryOK cfg opts) (orc : Nat → Bool) (input : Bytes)
     (grow : Nat → Nat) (handlerReq : String → Bool) (sortTouch : Nat → List Nat) :
     FaultOutcome (readA cfg opts orc input grow handlerReq sortTouch).out (Edn.Model.read cfg opts input).out ∧
     (∀ v, (readA cfg opts orc input grow handlerReq sortTouch).out = .value v →
@@ -85,7 +90,7 @@ theorem readA_fault (cfg : Cfg) (opts : Opts) (hreg : opts.registry = none) (orc
   simp only
   have hf := readValueA_fault
     { ctx := { cfg := cfg, opts := opts }, orc := orc, grow := grow, handlerReq := handlerReq, sortTouch := sortTouch }
-    hreg (readFuel input) 0 false { rest := input } a0 (Nat.zero_le _)
+    hR (readFuel input) 0 false { rest := input } a0 (Nat.zero_le _)
   simp only at hf
   obtain ⟨f1, f2, f3, f4⟩ := hf
   rcases hq : readValueA
@@ -129,5 +134,64 @@ theorem readA_fault (cfg : Cfg) (opts : Opts) (hreg : opts.registry = none) (orc
         refine ⟨?_, fun v hv => ?_⟩
         · split <;> trivial
         · split at hv <;> cases hv
+
+/-- without a registry -/
+theorem readA_fault_noRegistry (cfg : Cfg) (opts : Opts) (hreg : opts.registry = none) (orc : Nat → Bool) (input : Bytes)
+    (grow : Nat → Nat) (handlerReq : String → Bool) (sortTouch : Nat → List Nat) :
+    FaultOutcome (readA cfg opts orc input grow handlerReq sortTouch).out (Edn.Model.read cfg opts input).out :=
+  (readA_fault cfg opts (RegistryOK_of_none hreg) orc input grow handlerReq sortTouch).1
+
+/-! ## handlers that satisfy the hypothesis -/
+
+/-- the identity handler -/
+theorem HandlerOK_id (cfg : Cfg) (name : String) : HandlerOK cfg ⟨name, fun v => some v⟩ := by
+  intro d v v0 g
+  exact g.weaken
+
+/-- a handler that always gives up -/
+theorem HandlerOK_fail (cfg : Cfg) (name : String) : HandlerOK cfg ⟨name, fun _ => none⟩ := by
+  intro d v v0 g
+  trivial
+
+/-- a handler that builds an external value from the range of its argument -/
+theorem HandlerOK_ext (cfg : Cfg) (name : String) (hdr : Hdr) (hc : hdr.hc = 0) (tid : Nat) (g : Nat → Nat → Nat) :
+    HandlerOK cfg ⟨name, fun v => some (.ext hdr tid (g v.hdr.s v.hdr.e))⟩ := by
+  intro d v v0 gd
+  obtain ⟨rs, re⟩ := range_of_erase gd.er
+  have hd : d ≤ Tables.maxNestingDepth := by have := gd.ok.1; omega
+  have hf : freshLeaf (.ext hdr tid (g v0.hdr.s v0.hdr.e)) = true := by
+    show (true && hdr.hc == 0) = true
+    rw [hc]; rfl
+  show Good cfg d (.ext hdr tid (g v.hdr.s v.hdr.e)) (.ext hdr tid (g v0.hdr.s v0.hdr.e))
+  rw [rs, re]
+  exact ⟨rfl, VOK_of_freshLeaf hf hd, VOK_of_freshLeaf hf hd, MdOK_of_none rfl, MdOK_of_none rfl⟩
+
+/-! ## the hypothesis on the registry is needed (in the model)
+
+A handler that looks at a cache cell of its argument tells a run whose duplicate check hashed the
+elements from a run whose check fell back to the pairwise strategy. -/
+
+/-- a handler that looks at a cache cell of its argument -/
+def peekHandler : Handler :=
+  { name := "peek",
+    run := fun v => match v with
+      | .set _ _ (y :: _) => if y.hdr.hc == 0 then some (.nil (mkHdr 0 0)) else some (.bool (mkHdr 0 0) true)
+      | _ => none }
+
+def peekOpts : Opts :=
+  { registry := some (fun tag => if tag == "t".toUTF8.toList then some peekHandler else none) }
+
+def outcomeTag : Outcome → Nat
+  | .value (.nil _) => 1
+  | .value (.bool _ true) => 2
+  | _ => 0
+
+/-- `#t #{1 … 17}`: without a fault the handler sees hashed elements and answers `true`; with the
+    `malloc` of the sorted copy (request 23) refused it sees unhashed elements and answers `nil` — two
+    different values, so "equal up to cache cells" fails with such a handler -/
+theorem fault_theorem_needs_registry_hypothesis :
+    outcomeTag (Edn.Model.read Cfg.core peekOpts "#t #{1 2 3 4 5 6 7 8 9 10 11 12 13 14 15 16 17}".toUTF8.toList).out = 2 ∧
+    outcomeTag (readA Cfg.core peekOpts (fun i => i == 23) "#t #{1 2 3 4 5 6 7 8 9 10 11 12 13 14 15 16 17}".toUTF8.toList).out = 1 := by
+  decide +kernel
 
 end Edn.Proofs.AllocSim
